@@ -17,7 +17,9 @@ RULE = ("requests `tof64|tof32 D<c>:<s>` -> bit pattern; oracle: exact round-hal
         "then for every scale the Decimals floor(m*10^s) + {-2..2}; exact ties where m*10^s is an integer; values "
         "straddling powers of two; integral values with non-zero scale; 0 @ s; the regression inputs of issues "
         "#13/#14; plus `probe --sweep-tof`: millions of pseudo-random and structured Decimals per run compared in-process "
-        "with what Rust std's correctly rounded parser makes of the decimal text (a second, independent oracle). Non-trivial = within 2 decimal ulps of a float midpoint or a power of two")
+        "with what Rust std's correctly rounded parser makes of the decimal text (a second, independent oracle; its structured classes enumerate every guard/round/sticky pattern below random 24- and "
+        "53-bit significands); `probe --sweep-tof32-small`: every coefficient of a window x every scale x both signs "
+        "against an exact integer reference. Non-trivial = within 2 decimal ulps of a float midpoint or a power of two")
 BUILDS = {"quick": [("dev", ()), ("release", ())],
           "thorough": [("dev", ()), ("release", ()), ("release", ("packed",)), ("o0-nochk", ())]}
 MODE_INDEPENDENT = True      # half of every batch runs under a non-default thread rounding mode
@@ -122,5 +124,33 @@ def main(tier, seed):
         parts = ex.split(" ")
         return "%s %s" % (parts[1], parts[2])
     code = E.fold_sweep(ID, code, ev, "std_parse_crosscheck", sw, tier, seed, rl)
+    # exhaustive sub-domain for f32: EVERY coefficient of a window at every scale 0..=18 and both signs, exact
+    # integer reference (quick: [1, 2^16) and a 2^22 window chosen by the seed; thorough: a 2^30 window chosen by
+    # the seed - seeds 0..3 cover all 32-bit coefficients - or all of [1, 2^32) with VERIF_DEEP=1, ~75 min)
+    import os
+    windows = [(1, 1 << 16)]
+    if tier == "quick":
+        w = 1 << 22
+        start = (1 << 16) + ((seed * 2654435761) % 1000) * w
+        windows.append((start, start + w))
+    elif os.environ.get("VERIF_DEEP"):
+        windows = [(1, 1 << 32)]
+    else:
+        w = 1 << 30
+        windows.append(((seed % 4) * w + 1, (seed % 4 + 1) * w))
+    tot = {"ran": True, "windows": [], "checked": 0, "mismatches": 0, "examples": [], "wall_s": 0.0}
+    for lo, hi in windows:
+        r = E.run_sweep(binary, ["--sweep-tof32-small", lo, hi, E.NCPU], timeout=8000)
+        if not r.get("ran"):
+            tot = r
+            break
+        tot["windows"].append([lo, hi])
+        tot["checked"] += r["checked"]
+        tot["mismatches"] += r["mismatches"]
+        tot["examples"] += r["examples"][:5]
+        tot["wall_s"] += r["wall_s"]
+    code = E.fold_sweep(ID, code, ev, "f32_small_coefficient_sweep", tot, tier, seed, rl)
+    if tot.get("ran"):
+        ev["coverage"]["exhaustive_subdomains"] = ["f32::from(Decimal(c, n)) for every c in %s, every n in 0..=18, both signs" % tot["windows"]]
     E.write_evidence(ID, ev)
     return code
